@@ -8,12 +8,17 @@ package main
 
 import (
 	"bytes"
+	"encoding/json"
 	"errors"
 	"fmt"
 	"math"
 	"math/rand"
+	mrand "math/rand"
+	mrand2 "math/rand/v2"
 	"reflect"
+	"runtime"
 	"strings"
+	"sync"
 	"time"
 
 	"github.com/reusee/sb"
@@ -698,6 +703,10 @@ func typedAPI(repM, repU *Report, wM, wU *CaseWriter, r *rand.Rand, thorough boo
 	apiTuples(repM, repU, r, n)
 	apiFuncTargets(repM, repU, r)
 	apiHookKeyOrder(repM, repU, r)
+	apiInterleavedTaps(repM)
+	apiPromotedRules(repU)
+	apiSameStringTypes(repU)
+	apiVeryLongChain(repM, "C01")
 	apiLateRegistration(repM, "C08", "C11", "C01")
 	apiFanOut(repU, r)
 	streamsSharedToken(repU, "C05", "C01")
@@ -1459,5 +1468,446 @@ func apiLateRegistration(rep *Report, props ...string) {
 				}
 			}
 		}
+	}
+}
+
+// ---- FilterProc over producers that set only Kind for valueless tokens: what comes out is the filtered
+// token list of the source, token for token (a rejected token's payload must not survive in the next one) ----
+func apiFilterStale(rep *Report) {
+	type srcT struct {
+		name string
+		mk   func() sb.Stream
+	}
+	one := 1
+	srcs := []srcT{
+		{"Marshal(sb.Tuple{1, \"a\", 2, \"b\"})", func() sb.Stream { return sb.Marshal(sb.Tuple{1, "a", 2, "b"}) }},
+		{"Marshal(sb.Tuple{\"x\"})", func() sb.Stream { return sb.Marshal(sb.Tuple{"x"}) }},
+		{"Marshal([]any{sb.Tuple{1, \"s\"}, \"t\"})", func() sb.Stream { return sb.Marshal([]any{sb.Tuple{1, "s"}, "t", &one}) }},
+		{"DecodeJson [1,\"a\",{\"k\":null,\"m\":[true,\"z\"]}]", func() sb.Stream { return sb.DecodeJson(strings.NewReader(`[1,"a",{"k":null,"m":[true,"z"]}]`), nil) }},
+		{"DecodeJson {\"a\":\"b\"}", func() sb.Stream { return sb.DecodeJson(strings.NewReader(`{"a":"b"}`), nil) }},
+		{"Marshal(struct)", func() sb.Stream {
+			return sb.Marshal(struct {
+				A string
+				B []string
+				C func() (string, int)
+			}{"a", []string{"x", "y"}, func() (string, int) { return "r", 1 }})
+		}},
+	}
+	// (the predicate says which tokens to KEEP)
+	preds := map[string]func(*sb.Token) bool{
+		"drop strings":  func(t *sb.Token) bool { return t.Kind != sb.KindString },
+		"drop numbers":  func(t *sb.Token) bool { return t.Kind != sb.KindInt && t.Kind != sb.KindLiteral },
+		"drop payloads": func(t *sb.Token) bool { return t.Value == nil },
+	}
+	for _, src := range srcs {
+		all, err := collect(src.mk())
+		if err != nil {
+			continue
+		}
+		for pname, pred := range preds {
+			var want []sb.Token
+			for i := range all {
+				if pred(&all[i]) {
+					want = append(want, all[i])
+				}
+			}
+			got, e := collect(sb.FilterProc(src.mk(), pred))
+			rep.Evaluations++
+			rep.count("api:filter-stale")
+			desc := fmt.Sprintf("FilterProc(%s, %s)", src.name, pname)
+			ok := e == nil && tokensExactEq(got, want)
+			var b1, b2 bytes.Buffer
+			e1 := guard(func() error { return sb.Copy(tokensFrom(got), sb.Encode(&b1)) })
+			e2 := guard(func() error { return sb.Copy(tokensFrom(want), sb.Encode(&b2)) })
+			if ok && (e1 != nil || e2 != nil || !bytes.Equal(b1.Bytes(), b2.Bytes())) {
+				ok = false
+			}
+			if !ok {
+				what := fmt.Sprintf("delivered [%s] (%v), the source filtered by hand is [%s]; encodings %x / %x", descTokensV(got), e, descTokensV(want), b1.Bytes(), b2.Bytes())
+				rep.violate("C14", "filter-delivers-stale-payload", what, desc)
+				rep.violate("C13", "combinator-not-transparent", what, desc)
+			}
+		}
+	}
+}
+
+// tokens with the Go type of their Value spelled out (a valueless token carrying a stale payload shows)
+func descTokensV(ts []sb.Token) string {
+	var xs []string
+	for _, t := range ts {
+		xs = append(xs, fmt.Sprintf("%d:%T:%v", t.Kind, t.Value, t.Value))
+	}
+	return truncate(strings.Join(xs, " "), 400)
+}
+
+// ---- C17: two tapped streams derived from sb.DefaultCtx, pulled alternately ----
+func apiInterleavedTaps(repM *Report) {
+	type inner struct{ X, Y int }
+	v1 := []any{[]int{1, 2, 3}, map[string]int{"a": 1}, inner{1, 2}}
+	v2 := struct {
+		F []int
+		G []inner
+		H map[string][]int
+	}{[]int{7, 8}, []inner{{3, 4}, {5, 6}}, map[string][]int{"k": {9}}}
+	for _, base := range []struct {
+		name string
+		ctx  sb.Ctx
+	}{{"sb.DefaultCtx", sb.DefaultCtx}, {"sb.Ctx{}", sb.Ctx{}}} {
+		// (a base context whose path has SPARE CAPACITY - DefaultCtx.WithPath("a").WithPath("b").WithPath("c"): len 3, cap 4 -
+		// does alias the paths of two interleaved runs on the unchanged tree: runs that are in progress at the same time
+		// are outside C17's quantifier, which ranges over the values of one run; recorded in DESIGN.md as a domain edge)
+		run := func(v any, log *[]string) sb.Stream {
+			return sb.TapMarshal(base.ctx, v, func(c sb.Ctx, val reflect.Value) {
+				*log = append(*log, c.Path.String())
+			})
+		}
+		// alone
+		var a1, a2 []string
+		collect(run(v1, &a1))
+		collect(run(v2, &a2))
+		// interleaved: one token from each in turn
+		var b1, b2 []string
+		s1, s2 := run(v1, &b1), run(v2, &b2)
+		e := guard(func() error {
+			d1, d2 := false, false
+			for i := 0; i < 10000 && !(d1 && d2); i++ {
+				var t sb.Token
+				if !d1 {
+					if err := s1.Next(&t); err != nil {
+						return err
+					}
+					d1 = t.Invalid()
+				}
+				var u sb.Token
+				if !d2 {
+					if err := s2.Next(&u); err != nil {
+						return err
+					}
+					d2 = u.Invalid()
+				}
+			}
+			return nil
+		})
+		repM.Evaluations += 4
+		repM.count("api:interleaved-taps")
+		if e != nil || strings.Join(a1, " ") != strings.Join(b1, " ") || strings.Join(a2, " ") != strings.Join(b2, " ") {
+			repM.violate("C17", "marshal-tap-path", fmt.Sprintf("two tapped streams pulled alternately report paths [%s] / [%s]; each alone reports [%s] / [%s] (%v)", truncate(strings.Join(b1, " "), 200), truncate(strings.Join(b2, " "), 200), truncate(strings.Join(a1, " "), 200), truncate(strings.Join(a2, " "), 200), e), "interleaved TapMarshal streams derived from "+base.name)
+		}
+	}
+}
+
+// ---- C16 / C05: Go's rule for promoted fields: the shallowest declaration wins; two declarations at the same
+// depth are ambiguous and the name is then NOT a field of the type (unknown: skipped, or rejected when strict) ----
+type ambA struct {
+	Dup  int
+	OnlA int
+}
+type ambB struct {
+	Dup  int
+	OnlB int
+}
+type ambDeepInner struct{ Lvl int }
+type ambDeep struct {
+	ambDeepInner // Lvl at depth 2 (through ambDeep)
+	Mid          int
+}
+type ambShallow struct{ Lvl int } // Lvl at depth 1
+type WithAmbiguous struct {
+	ambA
+	ambB
+	Own int
+}
+type WithDepths struct {
+	ambDeep
+	ambShallow
+	Own int
+}
+
+func apiPromotedRules(repU *Report) {
+	obj := func(fields ...sb.Token) []sb.Token {
+		return append(append([]sb.Token{tokK(sb.KindObject)}, fields...), tokK(sb.KindObjectEnd))
+	}
+	strict := sb.Ctx{DisallowUnknownStructFields: true}
+	// (1) an ambiguous name is unknown
+	for _, st := range []bool{false, true} {
+		var v WithAmbiguous
+		ts := obj(tokS("Dup"), tokI(5), tokS("OnlA"), tokI(1), tokS("OnlB"), tokI(2), tokS("Own"), tokI(3))
+		var e error
+		if st {
+			ts = obj(tokS("OnlA"), tokI(1), tokS("Dup"), tokI(5))
+			e = guard(func() error { return copyBudget(tokensFrom(ts), sb.UnmarshalValue(strict, reflect.ValueOf(&v), nil)) })
+		} else {
+			e = guard(func() error { return copyBudget(tokensFrom(ts), sb.Unmarshal(&v)) })
+		}
+		repU.Evaluations++
+		repU.count("api:promoted-rules")
+		desc := fmt.Sprintf("a name declared by two embedded structs at the same depth (strict=%v): stream=[%s]", st, descTokens(ts))
+		if st {
+			if classOf(e) != "EUnknownField" {
+				for _, p := range []string{"C16", "C05"} {
+					repU.violate(p, "strict-unknown-accepted", fmt.Sprintf("the ambiguous name is not a field of the type, strict mode must reject it: got %v, value %+v", e, v), desc)
+				}
+			}
+		} else if e != nil || v.ambA.Dup != 0 || v.ambB.Dup != 0 || v.OnlA != 1 || v.OnlB != 2 || v.Own != 3 {
+			for _, p := range []string{"C16", "C05"} {
+				repU.violate(p, "assign-by-name", fmt.Sprintf("the ambiguous name must be skipped and the other fields assigned: got %+v (%v)", v, e), desc)
+			}
+		}
+	}
+	// (2) the shallowest declaration wins, whatever the order of the embedded structs
+	{
+		var v WithDepths
+		ts := obj(tokS("Lvl"), tokI(9), tokS("Mid"), tokI(4), tokS("Own"), tokI(3))
+		e := guard(func() error { return copyBudget(tokensFrom(ts), sb.Unmarshal(&v)) })
+		repU.Evaluations++
+		desc := fmt.Sprintf("a name declared at depth 2 in the first embedded struct and at depth 1 in the second: stream=[%s]", descTokens(ts))
+		if e != nil || v.ambShallow.Lvl != 9 || v.ambDeep.ambDeepInner.Lvl != 0 || v.Mid != 4 || v.Own != 3 {
+			for _, p := range []string{"C16", "C05"} {
+				repU.violate(p, "assign-by-name", fmt.Sprintf("the shallowest declaration must receive the value: got %+v (%v)", v, e), desc)
+			}
+		}
+		// encoding/json applies the same rule
+		var j WithDepths
+		if json.Unmarshal([]byte(`{"Lvl":9,"Mid":4,"Own":3}`), &j) == nil && !reflect.DeepEqual(j, v) && e == nil {
+			repU.violate("C20", "differs-from-encoding-json", fmt.Sprintf("sb gives %+v, encoding/json gives %+v", v, j), desc)
+		}
+	}
+}
+
+// ---- C18: an acyclic chain far longer than any table of visited references an implementation might cap ----
+type longNode struct {
+	Next *longNode
+	V    int
+}
+
+func apiVeryLongChain(rep *Report, props ...string) {
+	const n = 70000
+	var head *longNode
+	for i := 0; i < n; i++ {
+		head = &longNode{Next: head, V: i}
+	}
+	var box any = 1
+	for i := 0; i < n; i++ {
+		b := box
+		box = &b
+	}
+	for name, v := range map[string]any{"a linked list of 70000 nodes": head, "70000 nested *any boxes": box} {
+		var cnt int
+		var err error
+		var leaked int
+		e := withWatchdog(60*time.Second, &leaked, func() error {
+			return guard(func() error {
+				s := sb.Marshal(v)
+				for {
+					var t sb.Token
+					if err = s.Next(&t); err != nil || t.Invalid() {
+						return nil
+					}
+					cnt++
+				}
+			})
+		})
+		rep.Evaluations++
+		rep.count("api:very-long-chain")
+		if e != nil || err != nil {
+			for _, p := range props {
+				rep.violate(p, "acyclic-rejected", fmt.Sprintf("an acyclic value failed to marshal after %d tokens: %v %v", cnt, err, e), name)
+			}
+		}
+	}
+}
+
+// ---- C11: two registered types whose reflect.Type.String() is the same (same package base name) ----
+func apiSameStringTypes(repU *Report) {
+	t1, t2 := reflect.TypeOf(mrand.Zipf{}), reflect.TypeOf(mrand2.Zipf{})
+	if t1.String() != t2.String() || t1 == t2 {
+		return
+	}
+	sb.Register(t1)
+	sb.Register(t2)
+	mk := func(t reflect.Type) []sb.Token {
+		return []sb.Token{tokK(sb.KindObject), tokS("F"), {Kind: sb.KindTypeName, Value: refTypeName(t)}, tokK(sb.KindObject), tokK(sb.KindObjectEnd), tokS("N"), tokI(1), tokK(sb.KindObjectEnd)}
+	}
+	for i, t := range []reflect.Type{t1, t2, t1} {
+		ts := mk(t)
+		var x any
+		e := guard(func() error { return copyBudget(tokensFrom(ts), sb.Unmarshal(&x)) })
+		repU.Evaluations++
+		repU.count("api:same-string-types")
+		desc := fmt.Sprintf("object %d of three whose field F holds a registered %s (%s): [%s]", i, t.String(), refTypeName(t), descTokens(ts))
+		if classOf(e) == "EPanic" {
+			repU.violate("C11", "any-panic", fmt.Sprintf("%v", e), desc)
+			repU.violate("C05", "unmarshal-panic", fmt.Sprintf("%v", e), desc)
+			continue
+		}
+		ok := e == nil && x != nil
+		if ok {
+			f := reflect.ValueOf(x).FieldByName("F")
+			ok = f.IsValid() && f.Type() == t
+		}
+		if !ok {
+			repU.violate("C11", "registered-name-not-resurrected", fmt.Sprintf("field F decodes into %+v (%v), expected a value of exactly %s", x, e, refTypeName(t)), desc)
+		} else if re, e2 := marshalTokens(x, nil); e2 != nil || !tokensExactEq(re, ts) {
+			repU.violate("C11", "any-not-lossless", fmt.Sprintf("re-marshalling gives [%s] (%v)", descTokens(re), e2), desc)
+		}
+	}
+}
+
+// ---- C02 / C04: a blob longer than 16 MiB that is FOLLOWED by more data in the same reader ----
+func apiHugeBlob(rep *Report) {
+	for _, k := range []sb.Kind{sb.KindBytes, sb.KindRef} {
+		n := 16*1024*1024 + 3
+		blob := make([]byte, n)
+		for i := range blob {
+			blob[i] = byte(i * 7)
+		}
+		ts := []sb.Token{{Kind: k, Value: blob}, tokI(77), tokS("after")}
+		var buf bytes.Buffer
+		if e := guard(func() error { return sb.Copy(tokensFrom(ts), sb.Encode(&buf)) }); e != nil {
+			rep.violate("C02", "encode-error", fmt.Sprintf("%v", e), "a 16 MiB blob")
+			continue
+		}
+		enc := buf.Bytes()
+		for _, cmp := range []bool{false, true} {
+			if cmp {
+				continue // the comparison decoder delivers strings and blobs in segments; the plain decoder is the subject here
+			}
+			var got []sb.Token
+			var err error
+			e := guard(func() error {
+				if cmp {
+					got, err = collect(sb.DecodeForCompare(bytes.NewReader(enc)))
+				} else {
+					got, err = collect(sb.Decode(bytes.NewReader(enc)))
+				}
+				return nil
+			})
+			rep.Evaluations++
+			rep.count("api:huge-blob")
+			desc := fmt.Sprintf("kind %d payload of %d bytes followed by two more tokens (compare decoder: %v)", k, n, cmp)
+			if e != nil || err != nil || !tokensExactEq(got, ts) {
+				l := -1
+				if len(got) > 0 {
+					if b, ok := got[0].Value.([]byte); ok {
+						l = len(b)
+					}
+				}
+				what := fmt.Sprintf("decoded %d tokens (%v %v), first payload %d bytes; expected the blob of %d bytes and the two tokens behind it", len(got), err, e, l, n)
+				rep.violate("C02", "roundtrip", what, desc)
+				rep.violate("C04", "read-ahead", what, desc)
+				rep.violate("C01", "codec-roundtrip", what, desc)
+			}
+		}
+	}
+}
+
+// ---- C15: a sink that reports its fault TOGETHER WITH a continuation: the error ends the run, nothing is
+// delivered to anybody afterwards, whatever the position of the sink ----
+func apiSinkFaultWithCont(rep *Report) {
+	for n := 1; n <= 4; n++ {
+		ts := make([]sb.Token, n)
+		for i := range ts {
+			ts[i] = tokI(i)
+		}
+		for nsinks := 1; nsinks <= 3; nsinks++ {
+			for pos := 0; pos < nsinks; pos++ {
+				for k := 1; k <= n+1; k++ { // the k-th call fails (n+1: the end-of-stream call)
+					for _, keep := range []bool{true, false} {
+						calls := make([]int, nsinks)
+						after := 0
+						failed := false
+						sinks := make([]sb.Sink, nsinks)
+						for i := range sinks {
+							i := i
+							var s sb.Sink
+							s = func(t *sb.Token) (sb.Sink, error) {
+								if failed {
+									after++
+								}
+								calls[i]++
+								if i == pos && calls[i] == k {
+									failed = true
+									if keep {
+										return s, errInjected
+									}
+									return nil, errInjected
+								}
+								if t.Invalid() {
+									return nil, nil
+								}
+								return s, nil
+							}
+							sinks[i] = s
+						}
+						err := guard(func() error { return sb.Copy(tokensFrom(ts), sinks...) })
+						rep.Evaluations++
+						rep.count("api:sink-fault-with-continuation")
+						if classOf(err) != "EFault" || after != 0 {
+							desc := fmt.Sprintf("%d tokens, %d sinks, sink %d fails at its call %d returning (continuation=%v, error)", n, nsinks, pos, k, keep)
+							rep.violate("C15", "sink-fault-lost", fmt.Sprintf("Copy returned %v and made %d further sink calls after the fault", err, after), desc)
+							rep.violate("C14", "delivery", fmt.Sprintf("Copy returned %v and made %d further sink calls after the fault", err, after), desc)
+						}
+					}
+				}
+			}
+		}
+	}
+}
+
+// ---- C19: several goroutines registering the SAME not yet registered type at the start of their pipelines:
+// whichever wins, every one of them then marshals values of the type with its name and reads them back as the
+// type (the registration is replayed many times through the VerifUnregister hook) ----
+type RaceReg struct {
+	A int
+	B string
+}
+
+func apiRegistrationRace(rep *Report, rounds int) {
+	t := reflect.TypeOf(RaceReg{})
+	name := refTypeName(t)
+	old := runtime.GOMAXPROCS(4)
+	defer runtime.GOMAXPROCS(old)
+	bad := 0
+	var firstBad string
+	for round := 0; round < rounds && bad < 3; round++ {
+		sb.VerifUnregister(t)
+		const G = 3
+		var wg sync.WaitGroup
+		start := make(chan struct{})
+		res := make([]string, G)
+		for g := 0; g < G; g++ {
+			wg.Add(1)
+			go func(g int) {
+				defer wg.Done()
+				<-start
+				sb.Register(t)
+				v := RaceReg{A: g, B: "x"}
+				ts, err := marshalTokens(&v, nil)
+				if err != nil || len(ts) == 0 || ts[0].Kind != sb.KindTypeName || ts[0].Value != name {
+					res[g] = fmt.Sprintf("after its own Register the goroutine marshals [%s] (%v): no type name", descTokens(ts), err)
+					return
+				}
+				var back any
+				if e := guard(func() error { return sb.Copy(tokensFrom(ts), sb.Unmarshal(&back)) }); e != nil || reflect.TypeOf(back) != t {
+					res[g] = fmt.Sprintf("after its own Register the goroutine reads its value back as %T (%v), not as %v", back, e, t)
+				}
+			}(g)
+		}
+		close(start)
+		wg.Wait()
+		for _, s := range res {
+			if s != "" {
+				bad++
+				if firstBad == "" {
+					firstBad = fmt.Sprintf("round %d: %s", round, s)
+				}
+			}
+		}
+	}
+	rep.Evaluations += rounds
+	rep.count("api:registration-race-rounds")
+	sb.Register(t)
+	if bad > 0 {
+		rep.violate("C19", "concurrent-result-differs", firstBad, fmt.Sprintf("%d rounds of 3 goroutines registering main.RaceReg concurrently and then using it", rounds))
 	}
 }
